@@ -307,36 +307,32 @@ type shutRun struct {
 	acancel context.CancelFunc
 	wg      sync.WaitGroup
 
-	t0NS          int64
-	dialCancel    context.CancelCauseFunc
-	dialCancelNS  int64 // when the scripted cancellation happened (0 = never)
-	srvReady      chan struct{}
-	lnCloseNS     [2]int64 // call, return
-	trCloseNS     [2][2]int64
-	trClosed      [2]bool
-	resetDone     bool
-	last1RTT      [2][]byte // last datagram carrying a 1-RTT packet, per direction (the peer's current connection ID)
-	lastBig       [2][]byte // the last one large enough to be answered by a stateless reset
-	extraTr       []*quic.Transport
-	extraConns    []*simnet.SimConn
-	aliveCheckNS  int64
-	aliveAt       [2]bool
-	aliveChecked  bool
-	causeFiredNS  int64
-	gaveUp        bool
-	specCIDLen    int
-	resetKey      quic.StatelessResetKey
-	hsIdle        [2]time.Duration
-	cfgIdle       [2]time.Duration
-	finalCloseNS  int64
-	giveUpNS      int64
-	rdl           []interface{ SetReadDeadline(time.Time) error }
-	wdl           []interface{ SetWriteDeadline(time.Time) error }
-	protoNS       int64
-	protoCode     uint64
-	lastPkt       [2]*TapPacket
-	afterWG       sync.WaitGroup
-	deferred      [][2]string
+	t0NS         int64
+	dialCancel   context.CancelCauseFunc
+	dialCancelNS int64 // when the scripted cancellation happened (0 = never)
+	srvReady     chan struct{}
+	lnCloseNS    [2]int64 // call, return
+	trCloseNS    [2][2]int64
+	trClosed     [2]bool
+	resetDone    bool
+	last1RTT     [2][]byte // last datagram carrying a 1-RTT packet, per direction (the peer's current connection ID)
+	lastBig      [2][]byte // the last one large enough to be answered by a stateless reset
+	extraTr      []*quic.Transport
+	extraConns   []*simnet.SimConn
+	aliveAt      [2]bool
+	aliveChecked bool
+	causeFiredNS int64
+	resetKey     quic.StatelessResetKey
+	hsIdle       [2]time.Duration
+	cfgIdle      [2]time.Duration
+	giveUpNS     int64
+	rdl          []interface{ SetReadDeadline(time.Time) error }
+	wdl          []interface{ SetWriteDeadline(time.Time) error }
+	protoNS      int64
+	protoCode    uint64
+	lastPkt      [2]*TapPacket
+	afterWG      sync.WaitGroup
+	deferred     [][2]string
 }
 
 func (s *shutRun) now() int64 { return s.w.NowNS() }
@@ -1132,7 +1128,7 @@ func (s *shutRun) execute() {
 			// left idle for 3 x the idle timeout (the larger of the two configured values)
 			if s.sleep(3 * maxIdle) {
 				s.mu.Lock()
-				s.aliveChecked, s.aliveCheckNS = true, s.now()
+				s.aliveChecked = true
 				for k := 0; k < 2; k++ {
 					s.aliveAt[k] = s.sides[k].conn.Context().Err() == nil
 				}
@@ -1149,9 +1145,6 @@ func (s *shutRun) execute() {
 	s.waitEnds(horizon)
 	// whatever is still running is closed by the application now: first one side, the other learns it from the
 	// peer (or closes itself after waiting for its idle period)
-	s.mu.Lock()
-	s.finalCloseNS = s.now()
-	s.mu.Unlock()
 	order := []int{sc.FinalSide, 1 - sc.FinalSide}
 	for i, k := range order {
 		sd := s.sides[k]
@@ -1384,6 +1377,24 @@ func (s *shutRun) judge() {
 					}
 				}
 			}
+		}
+	}
+	if v[1].complete == 0 && s.sides[1].conn != nil {
+		v[1].complete = max(s.sides[1].availNS, 1) // Accept returned it: the handshake was complete by then
+	}
+	// The observer follows the first server-side connection. If that one died and the client completed its handshake
+	// with a second one (grown from a retransmitted ClientHello), the observer cannot open the connection's packets:
+	// every wire-based clause is skipped for such a run.
+	if tc != nil {
+		for _, rec := range w.Log[0] {
+			for _, p := range rec.Pkts {
+				if !p.Opened && (p.Type == TapUnknown || p.Type == Tap1RTT) && (!v[0].done || rec.SentNS < v[0].doneNS) {
+					tc = nil
+				}
+			}
+		}
+		if tc == nil {
+			s.res.Probe("observer-lost-the-connection")
 		}
 	}
 	for k := 0; k < 2; k++ {
@@ -1792,7 +1803,7 @@ func (s *shutRun) judgeIdle(k int, v *shutView, tc *TapConn) {
 		if D-ref < int64(s.hsIdle[k])-shutPrompt {
 			s.report("(6) handshake idle timeout fired earlier than the handshake idle timeout after the last packet the endpoint processed", "side %d: last acknowledged delivery %v, fired %v, handshake idle timeout %v", k, time.Duration(ref), time.Duration(D), s.hsIdle[k])
 		}
-		if D > start+int64(s.hsIdle[k])+2*shutPrompt {
+		if tc != nil && D > start+int64(s.hsIdle[k])+2*shutPrompt {
 			s.report("(6) handshake idle timeout fired much later than the handshake idle timeout after the last activity", "side %d: last delivery %v, first ack-eliciting packet sent after it %v, fired %v, handshake idle timeout %v", k, time.Duration(lastDel), time.Duration(firstAE), time.Duration(D), s.hsIdle[k])
 		}
 		s.res.Probe("idle-timing-checked:handshake")
@@ -1814,7 +1825,7 @@ func (s *shutRun) judgeIdle(k int, v *shutView, tc *TapConn) {
 	if lower > 0 && D-lastProven < lower-shutPrompt {
 		s.report("(6) idle timeout fired earlier than the negotiated idle period after the last packet the endpoint acknowledged", "side %d: last acknowledged delivery %v, fired %v, advertised %v ms", k, time.Duration(lastProven), time.Duration(D), adv)
 	}
-	if sd := s.sides[k]; v.handle && sd.conn != nil {
+	if sd := s.sides[k]; v.handle && sd.conn != nil && tc != nil {
 		mad := 25 * time.Millisecond
 		if tc != nil && tc.CH != nil {
 			peer := tc.SrvTP
@@ -1879,10 +1890,14 @@ func (s *shutRun) judgeWire(k int, v *shutView, ccs []shutCC, tc *TapConn) {
 	}
 	if !local {
 		if len(mine) > 0 && (v.done || v.class == "alive") {
-			if v.class == "reset" {
+			internal := true
+			for _, cc := range mine {
+				internal = internal && !cc.app && cc.code == 1 && strings.Contains(cc.reason, "received a stateless reset")
+			}
+			if v.class == "reset" && internal {
 				// known defect: a stateless reset recognised by the connection itself (packet routed to it: zero-length
 				// or matching connection ID) is answered with CONNECTION_CLOSE(INTERNAL_ERROR)
-				s.known("(4) CONNECTION_CLOSE sent although none is due ("+v.class+")", "side %d: cause %v; frames %+v", k, v.cause, mine)
+				s.known("(4) stateless reset recognised by the connection itself is answered with CONNECTION_CLOSE (INTERNAL_ERROR)", "side %d: cause %v; frames %+v", k, v.cause, mine)
 				return
 			}
 			s.report("(4) CONNECTION_CLOSE sent although none is due ("+v.class+")", "side %d: cause %v; frames %+v", k, v.cause, mine)
